@@ -310,8 +310,10 @@ def run(ctx):
             link = F.HSymMixin(link)
         ctx.case(("directed-lm", depth))
         ctx.count("mon.C20.structure")
-        got = {"descendants": len(link.descendants), "size": link.size, "preorder": len(list(PreOrderIter(link))), "leaves": len(link.leaves), "children": len(link.children)}
-        want = {"descendants": 0, "size": 1, "preorder": 1, "leaves": 1, "children": 0}
+        # is_leaf and height are asked first, on a link whose children were never looked at
+        got = {"is_leaf": link.is_leaf, "height": link.height}
+        got.update({"descendants": len(link.descendants), "size": link.size, "preorder": len(list(PreOrderIter(link))), "leaves": len(link.leaves), "children": len(link.children)})
+        want = {"is_leaf": True, "height": 0, "descendants": 0, "size": 1, "preorder": 1, "leaves": 1, "children": 0}
         if got != want or [c.parent is t for c in kids] != [True, True]:
             ctx.violation("C20/structure/link-shows-targets-children", "structural-model", {"directed": "link chain of depth %d to a LightNodeMixin target with two children" % depth}, expected=want, observed=got)
 
